@@ -34,6 +34,15 @@ CLAIMED = {
             "only by register(); `algorithms` only flows into fresh registry constructions; every model receiver of a crypto call "
             "comes from a gate call; `none` never verifies; registration code is unreachable from operations.",
             "frozen tables in jv/spec/tables.py; explicit empty allow-list not armed (ambiguous statement)", "5/C05"),
+    "C06": ("static analysis: CFG must-pass-through of check_use / curve / size gates on every key-entering site, literal table of "
+            "get_op_key operations per algorithm method, path-condition truth table of check_key_op, folded operation registry and key sizes",
+            "Decides: every key selected by guess_key (11 landing sites) or pre-attached to a recipient passes check_use('sig'|'enc') "
+            "before any use; every algorithm method obtains its native key only via get_op_key(<operation required by the RFC table>), "
+            "get_op_key is dominated by check_key_op, check_key_op raises iff key_ops excludes the operation or private material is "
+            "missing (all 16 atom assignments), the folded operation registry equals RFC 7517; ECDSA sign/verify and EdDSA are curve/type "
+            "guarded; AES-KW/GCM-KW/dir exact-size and RSA>=2048 gates dominate the primitives; the PEM/SSH unsafe-secret warning is on "
+            "every path. The key-type gate is audit-only (every mismatch already fails inside the primitive).",
+            "primitives fail for keys of the wrong type; frozen tables jv/spec/tables.py", "5/C06"),
 }
 
 NOT_YET = "check not built yet (build in progress; see DESIGN.md section 5 for the planned rules)"
